@@ -59,11 +59,12 @@ def run(rep):
     for q, v in ogp.summaries.items():
         for st in find_stars(v, lambda s: s[1][0] == 'f' and s[1][2] == 'constants' and s[1][1][0] == 'param'):
             ts = E.find_templates(st[3], lambda t: E.tmpl_text(t).startswith('pub const #'))
-            if ts and ts[0][3] == q:
+            if ts:
                 hits.append((q, st, ts[0]))
     rep.floor('repetition over module.constants producing `pub const` items', len(hits), 1)
     if not hits:
         return
+    hits.sort(key=lambda h_: len(ogp.crate.call_graph()[h_[0]]))   # the innermost function that contains the whole repetition
     q, st, tmpl = hits[0]
     f = ogp.crate.fns[q]
     where = f"{ogp.crate.relfile(f['file'])} fn {f['name']} (template at {tmpl[1]})"
